@@ -235,6 +235,11 @@ fn c09_scenario(extra: u8) -> Result<(), String> {
         3 => tb.add_extra_witness_datum(&datum),
         4 => tb.add_extra_witness_datum(&same_value_other_bytes),
         5 => { tb.add_extra_witness_datum(&same_value_other_bytes); tb.add_extra_witness_datum(&PlutusData::new_bytes(vec![8])); }
+        // distinct datums that arrive in an order that is not ascending under any natural comparison
+        6 => { tb.add_extra_witness_datum(&PlutusData::new_integer(&BigInt::from_str("2").unwrap())); tb.add_extra_witness_datum(&PlutusData::new_integer(&BigInt::from_str("1").unwrap())); }
+        7 => { tb.add_extra_witness_datum(&PlutusData::new_bytes(vec![9, 9, 9]));
+               tb.add_extra_witness_datum(&PlutusData::new_constr_plutus_data(&ConstrPlutusData::new(&bn(0), &PlutusList::new())));
+               tb.add_extra_witness_datum(&PlutusData::new_integer(&BigInt::from_str("-5").unwrap())); }
         _ => (),
     }
     let mut cm = Costmdls::new();
@@ -251,6 +256,27 @@ fn c09_scenario(extra: u8) -> Result<(), String> {
     let expected = hash_script_data(&ws.redeemers().unwrap_or(Redeemers::new()), &used, ws.plutus_data());
     if expected.to_bytes() != body_hash.to_bytes() {
         return Err(format!("{}: script data hash in the body differs from the hash derived from the emitted witness set", tag));
+    }
+    // independent derivation: blake2b256( bytes of witness-set field 5 | bytes of field 4 | language views ), the raw fields cut out of
+    // the serialized witness set with the reference scanner; the PlutusV1 language view written by hand from the ledger's definition
+    let wsb = ws.to_bytes();
+    let (mut f4, mut f5): (Option<Vec<u8>>, Option<Vec<u8>>) = (None, None);
+    if !wsb.is_empty() && wsb[0] >> 5 == 5 && (wsb[0] & 0x1f) < 24 {
+        let mut p = 1usize;
+        for _ in 0..(wsb[0] & 0x1f) {
+            let key = wsb[p];
+            let end = crate::wellformed::item_end(&wsb, p + 1, 64).ok_or(format!("{}: emitted witness set is not well-formed CBOR", tag))?;
+            if key == 4 { f4 = Some(wsb[p + 1..end].to_vec()); }
+            if key == 5 { f5 = Some(wsb[p + 1..end].to_vec()); }
+            p = end;
+        }
+    }
+    let view_v1: Vec<u8> = vec![0xa1, 0x41, 0x00, 0x4a, 0x9f, 0x18, 100, 0x18, 101, 0x18, 102, 0x18, 103, 0xff];
+    let mut pre = f5.ok_or(format!("{}: no redeemers in the emitted witness set", tag))?;
+    if let Some(d) = f4 { pre.extend(d); }
+    pre.extend(view_v1);
+    if blake2b256_ref(&pre).to_vec() != body_hash.to_bytes() {
+        return Err(format!("{}: script data hash in the body is not blake2b256(redeemers | datums | language views) of the bytes actually emitted", tag));
     }
     // emitted datums: each once
     if let Some(d) = ws.plutus_data() {
@@ -333,9 +359,114 @@ fn c09_bytes_variant_scenario() -> Result<(), String> {
 pub fn c09_battery<S: Src>(_s: &mut S) {
     let mut failures = Vec::new();
     if let Err(e) = c09_bytes_variant_scenario() { failures.push(e); }
-    for extra in 0..6u8 { if let Err(e) = c09_scenario(extra) { failures.push(e); } }
+    for extra in 0..8u8 { if let Err(e) = c09_scenario(extra) { failures.push(e); } }
     for extra in 0..3u8 { if let Err(e) = c18_size_scenario(extra) { failures.push(e); } }
-    assert!(failures.is_empty(), "{} of 6 script-data-hash scenarios violate the property; first: {}", failures.len(), failures[0]);
+    assert!(failures.is_empty(), "{} of 8 script-data-hash scenarios violate the property; first: {}", failures.len(), failures[0]);
+}
+
+// ---------------------------------------------------------------- C07: outputs created by the balancing step meet their minimum ADA
+const LONG_BYRON: &str = "DdzFFzCqrhsrcTVhLygT24QwTnNqQqQ8mZrq5jykUzMveU26sxaH529kMpo7VhPrt5pwW3dXeB2k3EEvKcNBRmzCfcQ7dTkyGzTs658C";
+fn c07_tokens(policies: u8, names: u8) -> MultiAsset {
+    let mut ma = MultiAsset::new();
+    for p in 0..policies {
+        let mut assets = Assets::new();
+        for n in 0..names { assets.insert(&AssetName::new(vec![0x41 + n; 8]).unwrap(), &bn(1_000_000 + n as u64)); }
+        ma.insert(&ScriptHash::from([0x10 + p; 28]), &assets);
+    }
+    ma
+}
+fn c07_change_scenario(addr_kind: u8, max_value_size: u32, policies: u8, in_coin: u64) -> Result<(), String> {
+    let tag = format!("change address kind {} max_value_size {} policies {} input {}", addr_kind, max_value_size, policies, in_coin);
+    let cpb = 4310u64;
+    let cfg = TransactionBuilderConfigBuilder::new().fee_algo(&LinearFee::new(&bn(44), &bn(155381))).pool_deposit(&bn(500_000_000)).key_deposit(&bn(2_000_000))
+        .max_value_size(max_value_size).max_tx_size(16384).coins_per_utxo_byte(&bn(cpb)).build().unwrap();
+    let mut tb = TransactionBuilder::new(&cfg);
+    let mut v = Value::new(&bn(in_coin));
+    if policies > 0 { v.set_multiasset(&c07_tokens(policies, 2)); }
+    tb.add_regular_input(&addr(0, 1), &TransactionInput::new(&TransactionHash::from([7u8; 32]), 0), &v).map_err(|_| format!("{}: input refused", tag))?;
+    tb.add_output(&TransactionOutput::new(&addr(0, 50), &Value::new(&bn(2_000_000)))).map_err(|_| format!("{}: payment refused", tag))?;
+    let change = match addr_kind { 4 => ByronAddress::from_base58(LONG_BYRON).unwrap().to_address(), k => addr(k, 100) };
+    if tb.add_change_if_needed(&change).is_err() { return Ok(()); }        // refusing is fine
+    let body = match tb.build() { Ok(b) => b, Err(_) => return Ok(()) };
+    let outs = body.outputs();
+    let dc = DataCost::new_coins_per_byte(&bn(cpb));
+    for i in 0..outs.len() {
+        let o = outs.get(i);
+        let coin: u64 = o.amount().coin().into();
+        let need = cpb * (160 + o.to_bytes().len() as u64);
+        if coin < need { return Err(format!("{}: output #{} holds {} lovelace, {} bytes need {}", tag, i, coin, o.to_bytes().len(), need)); }
+        let m: u64 = min_ada_for_output(&o, &dc).map_err(|_| format!("{}: min_ada_for_output failed", tag))?.into();
+        if coin < m { return Err(format!("{}: output #{} holds {} lovelace, below min_ada_for_output {}", tag, i, coin, m)); }
+        if o.amount().to_bytes().len() > max_value_size as usize { return Err(format!("{}: output #{} value of {} bytes exceeds max_value_size", tag, i, o.amount().to_bytes().len())); }
+    }
+    Ok(())
+}
+pub fn c07_change_min_ada<S: Src>(_s: &mut S) {
+    let mut failures = Vec::new();
+    let mut n = 0;
+    for kind in [0u8, 1, 2, 3, 4] {
+        for mvs in [150u32, 5000] {
+            for pol in [0u8, 1, 2, 4] {
+                for coin in [3_300_000u64, 3_400_000, 3_500_000, 3_700_000, 4_000_000, 5_000_000, 10_000_000, 50_000_000] {
+                    n += 1;
+                    if let Err(e) = c07_change_scenario(kind, mvs, pol, coin) { failures.push(e); }
+                }
+            }
+        }
+    }
+    assert!(failures.is_empty(), "{} of {} change-output scenarios violate the minimum-ADA / value-size bound; first: {}", failures.len(), n, failures[0]);
+}
+
+// ---------------------------------------------------------------- C09 first clause: auxiliary-data hash
+fn blake2b256_ref(data: &[u8]) -> [u8; 32] {
+    use cryptoxide::hashing::blake2b::Blake2b;
+    let mut out = [0u8; 32];
+    Blake2b::<256>::new().update(data).finalize_at(&mut out);
+    out
+}
+/// the body's auxiliary-data hash must be Blake2b-256 of the auxiliary data as serialized in the released transaction
+fn c09_aux_scenario(variant: u8) -> Result<(), String> {
+    let tag = format!("aux scenario {}", variant);
+    let mut tb = TransactionBuilder::new(&config(true));
+    let mut ib = TxInputsBuilder::new();
+    ib.add_key_input(&kh(1), &TransactionInput::new(&TransactionHash::from([3u8; 32]), 0), &Value::new(&bn(50_000_000)));
+    tb.set_inputs(&ib);
+    let mut md = GeneralTransactionMetadata::new();
+    md.insert(&bn(674), &TransactionMetadatum::new_text("hello".to_string()).unwrap());
+    let mut aux = AuxiliaryData::new();
+    match variant {
+        0 => { aux.set_metadata(&md); tb.set_auxiliary_data(&aux); }
+        1 => { aux.set_metadata(&md); let mut ns = NativeScripts::new(); ns.add(&native_script(5)); aux.set_native_scripts(&ns); tb.set_auxiliary_data(&aux); }
+        2 => { aux.set_metadata(&md); aux.set_prefer_alonzo_format(true); tb.set_auxiliary_data(&aux); }
+        3 => { let mut ps = PlutusScripts::new(); ps.add(&PlutusScript::new(vec![1, 2, 3])); ps.add(&PlutusScript::new_v2(vec![4, 5])); ps.add(&PlutusScript::new_v3(vec![6])); aux.set_plutus_scripts(&ps); tb.set_auxiliary_data(&aux); }
+        4 => { tb.set_metadata(&md); }
+        5 => { aux.set_metadata(&md); tb.set_auxiliary_data(&aux); tb.add_metadatum(&bn(1), &TransactionMetadatum::new_int(&Int::new_i32(-7))); }
+        6 => { tb.add_json_metadatum(&bn(9), "{\"a\": [1, 2, \"x\"]}".to_string()).map_err(|_| format!("{}: json metadatum refused", tag))?; }
+        7 => { aux.set_metadata(&md); let mut ns = NativeScripts::new(); ns.add(&native_script(5)); aux.set_native_scripts(&ns); tb.set_auxiliary_data(&aux); tb.set_metadata(&md); tb.add_metadatum(&bn(2), &TransactionMetadatum::new_bytes(vec![1; 40]).unwrap()); }
+        8 => { tb.set_auxiliary_data(&aux); }       // empty auxiliary data, still attached
+        _ => { aux.set_metadata(&md); tb.set_auxiliary_data(&aux); tb.remove_auxiliary_data(); }
+    }
+    tb.set_fee(&bn(2_000_000));
+    let tx = tb.build_tx_unsafe().map_err(|_| format!("{}: build failed", tag))?;
+    let body_hash = tx.body().auxiliary_data_hash();
+    let fixed = FixedTransaction::from_bytes(tx.to_bytes()).map_err(|_| format!("{}: released transaction does not parse", tag))?;
+    match (fixed.raw_auxiliary_data(), body_hash) {
+        (None, None) => if variant < 9 { Err(format!("{}: auxiliary data was set but is not attached", tag)) } else { Ok(()) },
+        (Some(raw), Some(h)) => {
+            if variant >= 9 { return Err(format!("{}: auxiliary data was removed but is attached", tag)); }
+            if h.to_bytes() != blake2b256_ref(&raw).to_vec() { return Err(format!("{}: body.auxiliary_data_hash is not blake2b256 of the attached auxiliary data bytes", tag)); }
+            let kept = tx.auxiliary_data().ok_or(format!("{}: no auxiliary data object", tag))?;
+            if kept.to_bytes() != raw { return Err(format!("{}: auxiliary data object and serialized transaction disagree", tag)); }
+            if let Some(want) = tb.get_auxiliary_data() { if want.to_bytes() != raw { return Err(format!("{}: attached auxiliary data differs from the builder's", tag)); } }
+            Ok(())
+        }
+        (a, b) => Err(format!("{}: auxiliary data attached: {}, hash in body: {}", tag, a.is_some(), b.is_some())),
+    }
+}
+pub fn c09_aux_battery<S: Src>(_s: &mut S) {
+    let mut failures = Vec::new();
+    for v in 0..10u8 { if let Err(e) = c09_aux_scenario(v) { failures.push(e); } }
+    assert!(failures.is_empty(), "{} of 10 auxiliary-data-hash scenarios violate the property; first: {}", failures.len(), failures[0]);
 }
 
 // ---------------------------------------------------------------- C10: redeemer pointers, through the public API
@@ -812,6 +943,64 @@ fn c13_many_owners(failures: &mut Vec<String>) {
             }
         }
     }
+}
+
+/// "the transactions together spend every supplied UTxO exactly once and pay only the target address" on wallets whose
+/// token UTxOs are underfunded and whose remaining ADA sits in dust (success must mean nothing is left over)
+fn c13_spend_all_scenario(token_coin: u64, policies: u8, healthy: bool, dust: u32, dust_coin: u64, max_tx: u32) -> Result<(), String> {
+    let tag = format!("token utxo {} lovelace / {} policies, healthy {}, {} dust utxos of {}, max_tx_size {}", token_coin, policies, healthy, dust, dust_coin, max_tx);
+    let owner = BaseAddress::new(0, &kc(1), &kc(2)).to_address();
+    let target = BaseAddress::new(0, &kc(5), &kc(6)).to_address();
+    let txid = TransactionHash::from([0x3bu8; 32]);
+    let mut utxos = TransactionUnspentOutputs::new();
+    let mut n = 0u32;
+    let mut tok = |first: u8, k: u8, coin: u64, n: &mut u32, utxos: &mut TransactionUnspentOutputs| {
+        let mut ma = MultiAsset::new();
+        for p in first..first + k { ma.set_asset(&ScriptHash::from([p; 28]), &AssetName::new(vec![p; 20]).unwrap(), &bn(7)); }
+        utxos.add(&TransactionUnspentOutput::new(&TransactionInput::new(&txid, *n), &TransactionOutput::new(&owner, &Value::new_with_assets(&bn(coin), &ma))));
+        *n += 1;
+    };
+    if healthy { tok(10, 1, 2_000_000, &mut n, &mut utxos); }
+    tok(100, policies, token_coin, &mut n, &mut utxos);
+    for _ in 0..dust {
+        utxos.add(&TransactionUnspentOutput::new(&TransactionInput::new(&txid, n), &TransactionOutput::new(&owner, &Value::new(&bn(dust_coin)))));
+        n += 1;
+    }
+    let cfg = TransactionBuilderConfigBuilder::new().fee_algo(&LinearFee::new(&bn(44), &bn(155381))).pool_deposit(&bn(500_000_000)).key_deposit(&bn(2_000_000))
+        .max_value_size(5000).max_tx_size(max_tx).coins_per_utxo_byte(&bn(4310)).build().unwrap();
+    let batches = match create_send_all(&target, &utxos, &cfg) { Ok(b) => b, Err(_) => return Ok(()) };
+    let mut times = vec![0u32; n as usize];
+    for b in 0..batches.len() {
+        let batch = batches.get(b);
+        for t in 0..batch.len() {
+            let body = batch.get(t).body();
+            for i in 0..body.inputs().len() {
+                let inp = body.inputs().get(i);
+                if inp.transaction_id().to_bytes() != txid.to_bytes() || inp.index() >= n { return Err(format!("{}: an input that was not supplied is spent", tag)); }
+                times[inp.index() as usize] += 1;
+            }
+            for o in 0..body.outputs().len() {
+                if body.outputs().get(o).address().to_bytes() != target.to_bytes() { return Err(format!("{}: an output pays another address", tag)); }
+            }
+        }
+    }
+    for (i, t) in times.iter().enumerate() {
+        if *t != 1 { return Err(format!("{}: send-all succeeded but supplied UTxO #{} is spent {} times", tag, i, t)); }
+    }
+    Ok(())
+}
+pub fn c13_spend_all<S: Src>(_s: &mut S) {
+    let mut failures = Vec::new();
+    let mut n = 0;
+    for (token_coin, policies, healthy) in [(1_000_000u64, 1u8, false), (1_000_000, 12, true), (1_200_000, 4, false), (900_000, 2, true)] {
+        for (dust, dust_coin) in [(300u32, 3_000u64), (500, 10_000), (150, 20_000), (40, 100_000)] {
+            for max_tx in [3000u32, 4000, 8000] {
+                n += 1;
+                if let Err(e) = c13_spend_all_scenario(token_coin, policies, healthy, dust, dust_coin, max_tx) { failures.push(e); }
+            }
+        }
+    }
+    assert!(failures.is_empty(), "{} of {} send-all scenarios leave supplied UTxOs unspent or spend them twice; first: {}", failures.len(), n, failures[0]);
 }
 
 pub fn c13_send_all<S: Src>(_s: &mut S) {
